@@ -207,6 +207,8 @@ type script struct {
 	nOps    int
 	plans   []plan
 	streams int
+	// silentLater: streams after the first receive no answers to operations at all
+	silentLater bool
 }
 
 // Modify answers parameters and election ids at once; when all operations have arrived it plays the plan chosen
@@ -226,6 +228,9 @@ func (s *script) Modify(ms spb.GRIBI_ModifyServer) error {
 			return err
 		}
 		rt.Emit("srv-recv", describe(in))
+		if clean && s.silentLater {
+			continue // (not even the session parameters / election id are answered)
+		}
 		switch {
 		case in.Params != nil:
 			// the answer to the session parameters may overtake nothing, but nothing obliges the server to send it
@@ -239,6 +244,9 @@ func (s *script) Modify(ms spb.GRIBI_ModifyServer) error {
 		case in.ElectionId != nil:
 			ms.Send(&spb.ModifyResponse{ElectionId: in.ElectionId})
 		default:
+			if clean && s.silentLater {
+				continue
+			}
 			if clean || len(s.plans) == 0 {
 				for _, op := range in.Operation {
 					rt.Emit("srv-terminal", op.Id)
@@ -703,6 +711,72 @@ func checkAck() func(x *rt.Exec) []mc.Fail {
 	}
 }
 
+// acrossResetBody: one operation is answered and its result read; after Reset + Connect a DIFFERENT operation is
+// handed over under the same id (every session numbers from 1) and the new server stays silent. What the client
+// reports must describe the new session only: the operation is pending, nothing is resulted.
+func acrossResetBody() func() {
+	return func() {
+		srv := &script{nOps: 1 << 30, silentLater: true}
+		stub := wire.New(srv)
+		c := newClient(false)
+		if err := c.UseStub(stub); err != nil {
+			panic(err)
+		}
+		if err := c.Connect(context.Background()); err != nil {
+			panic(err)
+		}
+		first := ops(1)
+		c.Q(&spb.ModifyRequest{Operation: first})
+		c.StartSending()
+		err := c.AwaitConverged(context.Background())
+		rt.Emit("await-returned", fmt.Sprint(err))
+		f1 := snapshot(c, first, false) // (reads Results() / Status())
+		rt.Emit("first-session", fmt.Sprintf("pending=%v results=%v", f1.pending, f1.results))
+		c.Reset()
+		if err := c.Connect(context.Background()); err != nil {
+			panic(err)
+		}
+		second := ribx.Op(1, D, spb.AFTOperation_DELETE, ribx.V4Entry("10.0.0.0/8", 0, "", nil))
+		second.ElectionId = &spb.Uint128{Low: 1}
+		c.Q(&spb.ModifyRequest{Operation: []*spb.AFTOperation{second}})
+		c.StartSending()
+		rt.Quiesce()
+		f := snapshot(c, []*spb.AFTOperation{second}, false)
+		rt.Emit("final", f)
+		c.Close()
+		rt.Quiesce()
+	}
+}
+
+func checkAcrossReset() func(x *rt.Exec) []mc.Fail {
+	return func(x *rt.Exec) []mc.Fail {
+		switch {
+		case x.Crash != "":
+			return []mc.Fail{{Sig: "crash/" + firstLine(x.Crash), What: x.Crash}}
+		case x.Deadlock:
+			return []mc.Fail{{Sig: "C13/client-blocked", What: fmt.Sprintf("across Reset: blocked: %v", x.Blocked)}}
+		}
+		var out []mc.Fail
+		for _, e := range x.Events {
+			switch e.Label {
+			case "first-session":
+				if e.Val.(string) != "pending=[] results=[1:RIB]" {
+					out = append(out, mc.Fail{Sig: "C13/await-failed-against-well-behaved-server", What: "first session: " + e.Val.(string)})
+				}
+			case "final":
+				f := e.Val.(final)
+				if fmt.Sprint(f.pending) != "[election op1 params]" && fmt.Sprint(f.pending) != "[op1]" {
+					out = append(out, mc.Fail{Sig: "C13/operation-lost", What: fmt.Sprintf("after Reset + Connect the unanswered operation 1 of the new session is not (only) pending: pending=%v", f.pending)})
+				}
+				if len(f.results) > 0 || len(f.detailsBad) > 0 {
+					out = append(out, mc.Fail{Sig: "C13/result-of-an-earlier-session-reported", What: fmt.Sprintf("after Reset + Connect, before any answer of the new server, the client reports results %v %v: they belong to the operation that had this id in the previous session", f.results, f.detailsBad)})
+				}
+			}
+		}
+		return out
+	}
+}
+
 func checkReusedID(shape string) func(x *rt.Exec) []mc.Fail {
 	return func(x *rt.Exec) []mc.Fail {
 		switch {
@@ -896,9 +970,9 @@ func outcome(x *rt.Exec) string {
 // accountingParts lists the C13 shards.
 func accountingParts(tier string) []string {
 	if tier == "thorough" {
-		return []string{"2-ops/rib-ack/rich", "2-ops/fib-ack/rich", "3-ops/rib-ack", "3-ops/fib-ack", "1-op/fib-ack/rich", "reused-id", "stop-start", "ack-while-receiving"}
+		return []string{"2-ops/rib-ack/rich", "2-ops/fib-ack/rich", "3-ops/rib-ack", "3-ops/fib-ack", "1-op/fib-ack/rich", "reused-id", "stop-start", "ack-while-receiving", "across-reset"}
 	}
-	return []string{"2-ops/rib-ack", "2-ops/fib-ack", "1-op/fib-ack/rich", "reused-id", "stop-start", "ack-while-receiving"}
+	return []string{"2-ops/rib-ack", "2-ops/fib-ack", "1-op/fib-ack/rich", "reused-id", "stop-start", "ack-while-receiving", "across-reset"}
 }
 
 // RunC13 decides C13 (one shard process per configuration).
@@ -921,6 +995,11 @@ func ChildC13(rep *report.Report, tier, part string) {
 			res := mc.DFS(mc.SchedConfig{Name: part + "/" + shape, Body: reusedIDBody(shape), Check: checkReusedID(shape), Outcome: outcome, Bound: bound, SwitchCost: 1, Deadline: dl})
 			merge(rep, "accounting/"+part+"/"+shape, res, bound)
 		}
+		return
+	}
+	if part == "across-reset" {
+		res := mc.DFS(mc.SchedConfig{Name: part, Body: acrossResetBody(), Check: checkAcrossReset(), Outcome: outcome, Bound: 1, SwitchCost: 1, Deadline: dl})
+		merge(rep, "accounting/"+part, res, 1)
 		return
 	}
 	if part == "ack-while-receiving" {
